@@ -185,8 +185,109 @@ func c01StaleParentUnits() []*explore.Unit {
 	return units
 }
 
+// c01LayoutChangeUnits: table t = [,f) [f,m) [m,t) [t,) on two servers; every subset of its
+// regions is in the client's cache when two neighbours merge or one region splits; then one
+// key per old region (and the boundary keys) is requested, in ascending or descending order,
+// and once more. Every request must succeed, and in the second round - when the cache has
+// seen every new region - nothing may be sent to a region that does not own the key and
+// nothing may be looked up again: a stale entry that survives next to the region that
+// replaced it shows up here.
+func c01LayoutChangeUnits(thorough bool) []*explore.Unit {
+	var units []*explore.Unit
+	warmKeys := []string{"a", "g", "n", "u"}
+	keys := []string{"a", "f", "g", "m", "n", "t", "u", "j", "c"}
+	for mask := 0; mask < 16; mask++ {
+		for change := 0; change < 7; change++ {
+			for _, desc := range []bool{false, true} {
+				if !thorough && desc && change >= 3 && mask%3 != 0 {
+					continue
+				}
+				mask, change, desc := mask, change, desc
+				var errs []error
+				var w *world
+				var base, baseScans int
+				cname := fmt.Sprintf("merge %d+%d", change, change+1)
+				if change >= 3 {
+					cname = fmt.Sprintf("split %d", change-3)
+				}
+				u := &explore.Unit{Name: fmt.Sprintf("wire|layout change|cached=%04b|%s|desc=%v", mask, cname, desc), Bound: 0, Opt: vrt.Options{MaxSteps: 80000}}
+				u.Body = func() {
+					errs = nil
+					cl := sim.NewCluster("rs0:1")
+					cl.AddTable("t", []string{"f", "m", "t"}, []string{"rs1:1", "rs2:1"})
+					cl.AddTable("s", nil, []string{"rs2:1"})
+					w = newWorldW(cl, gohbase.FlushInterval(0), gohbase.RpcQueueSize(1))
+					get := func(table, k string) {
+						ctx, cancel := vcontext.WithTimeout(context.Background(), 10*time.Minute)
+						g, _ := hrpc.NewGetStr(ctx, table, k)
+						_, err := w.client.Get(g)
+						cancel()
+						if err != nil {
+							errs = append(errs, fmt.Errorf("get %s:%q: %v", table, k, err))
+						}
+					}
+					get("s", "x") // the last region of a smaller table sits in front of t's first
+					for i, k := range warmKeys {
+						if mask&(1<<i) != 0 {
+							get("t", k)
+						}
+					}
+					if change < 3 {
+						a, b := regionOf(cl, "t", warmKeys[change]), regionOf(cl, "t", warmKeys[change+1])
+						cl.Merge(a, b, b.Server)
+					} else {
+						r := regionOf(cl, "t", warmKeys[change-3])
+						cl.Split(r, []string{"c", "j", "p", "w"}[change-3], r.Server, otherServer(cl, r.Server))
+					}
+					order := append([]string{}, keys...)
+					if desc {
+						for i, j := 0, len(order)-1; i < j; i, j = i+1, j-1 {
+							order[i], order[j] = order[j], order[i]
+						}
+					}
+					for _, k := range order {
+						get("t", k)
+					}
+					base, baseScans = len(cl.Attempts), len(cl.MetaScans)
+					for _, k := range order {
+						get("t", k)
+					}
+					w.client.Close()
+					vrt.Sleep(10 * time.Minute)
+					for _, c := range cl.WConns {
+						c.Server.Stop = true
+					}
+				}
+				u.Check = func(res *vrt.Result) *explore.Finding {
+					if f := baseFinding(res); f != nil {
+						return f
+					}
+					if res.Deadlock {
+						return &explore.Finding{Class: "request-blocked", Msg: fmt.Sprintf("%v", res.Blocked)}
+					}
+					if len(errs) > 0 {
+						return &explore.Finding{Class: "request-fails-after-layout-change", Msg: fmt.Sprintf("%v", errs)}
+					}
+					for _, a := range w.cl.Attempts[base:] {
+						if a.Misrouted() {
+							return &explore.Finding{Class: "routed-to-region-not-containing-key", Msg: fmt.Sprintf("second round, every new region already seen: %+v", a)}
+						}
+					}
+					if n := len(w.cl.MetaScans) - baseScans; n > 0 {
+						return &explore.Finding{Class: "cached-key-looked-up-again", Msg: fmt.Sprintf("%d meta scans in the second round: %+v", n, w.cl.MetaScans[baseScans:])}
+					}
+					return nil
+				}
+				units = append(units, u)
+			}
+		}
+	}
+	return units
+}
+
 func c01WUnits(thorough bool) []*explore.Unit {
 	units := append(cacheRegionsUnits(thorough), c01StaleParentUnits()...)
+	units = append(units, c01LayoutChangeUnits(thorough)...)
 	bounds := []string{"+", ",", "-", "b", "b\x00"}
 	var layouts [][]string
 	layouts = append(layouts, nil)
